@@ -319,6 +319,21 @@ def F1(ctx: Ctx) -> RuleResult:
             and outs[0].value.get('value') == Op('==', (C(0), Const('True'))):
         # HplLiteral(token, token == 'True'): the same map, provided the token is one of the two lexemes
         vals = {'True': Const(True), 'False': Const(False)}
+    if vals != {'True': Const(True), 'False': Const(False)}:
+        # any other way of writing the map: the callback evaluated at each of the two lexemes the BOOLEAN terminal has
+        ev_b = parser_eval(ctx)
+        at = {}
+        for lex in ('True', 'False'):
+            ev_b._stack.append(fi.key)
+            try:
+                lo = [o for o in expand_outcomes(ev_b.run(fi, {fi.params()[1]: Const(lex)})) if guards_consistent(o.guards)]
+            finally:
+                ev_b._stack.pop()
+            if len(lo) == 1 and lo[0].kind == 'return' and isinstance(lo[0].value, New) and lo[0].value.cls == 'HplLiteral' and lo[0].value.get('token') == Const(lex) \
+                    and isinstance(lo[0].value.get('value'), Const):
+                at[lex] = lo[0].value.get('value')
+        if len(at) == 2:
+            vals = at
     if vals == {'True': Const(True), 'False': Const(False)}:
         r.ok("boolean: 'True' -> True, 'False' -> False")
     else:
@@ -422,6 +437,15 @@ def _event_disjunction(ctx: Ctx, r: RuleResult):
     key = 'event_disjunction'
     loops = [e for o in outs for e in o.effects if isinstance(e, Loop)]
     rets = [o for o in outs if o.kind == 'return']
+    if not loops and len(rets) == 1 and isinstance(rets[0].value, Call) and isinstance(rets[0].value.func, Ext) and rets[0].value.func.name.split('.')[-1] == 'reduce' \
+            and len(rets[0].value.args) == 3 and isinstance(rets[0].value.args[0], FuncRef):
+        # the step is a named function: read it as the lambda it stands for
+        sfi = parser_eval(ctx).callee(rets[0].value.args[0])
+        if sfi is not None and len(sfi.params()) == 2:
+            so = parser_eval(ctx).run(sfi, {p_: Sym(f'lam:{p_}') for p_ in sfi.params()})
+            if len(so) == 1 and so[0].kind == 'return' and not so[0].guards:
+                v0 = rets[0].value
+                rets = [Outcome('return', Call(v0.func, (Lam(tuple(sfi.params()), so[0].value),) + tuple(v0.args[1:]), v0.kwargs), rets[0].guards, rets[0].effects, rets[0].asserts, rets[0].lineno, rets[0].env, rets[0].trace)]
     if not loops and len(rets) == 1 and isinstance(rets[0].value, Call) and isinstance(rets[0].value.func, Ext) and rets[0].value.func.name.split('.')[-1] == 'reduce' \
             and len(rets[0].value.args) == 3 and isinstance(rets[0].value.args[0], Lam):
         # reduce(lambda tail, event: Disjunction(event, tail), reversed(children[:-2]), Disjunction(children[-2], children[-1]))
